@@ -22,7 +22,8 @@ themes = {1: 'any realistic break', 2: 'the less obvious corners', 3: 'CONJUNCTI
           7: 'changes placed in the 46 functions no earlier change had touched, disguised as improvements (optimisation, simplification, hardening, modernisation)',
           8: 'regressions of the 25 repairs (a variant of a repaired defect: a neighbouring path, a guard that no longer holds, a simplification of the fix) and the edges of the process (start-up, shutdown, status socket, logging set-up)',
           9: 'the less-travelled corners of the configuration space (IPv6 and mixed-family tunnels, AH, RSA, lifetime -1, several connections) and numeric boundaries',
-          10: 'defects that hide in Python semantics (aliasing and in-place mutation, class-level state, truthiness of 0 / empty values, identity versus equality, exceptions raised inside handlers, signed struct formats, int constructors)'}
+          10: 'defects that hide in Python semantics (aliasing and in-place mutation, class-level state, truthiness of 0 / empty values, identity versus equality, exceptions raised inside handlers, signed struct formats, int constructors)',
+          11: 'breaks that need TWO INDEPENDENT ADVERSE EVENTS in one history, or a legal event arriving in a RARE STATE, and roll-back / clean-up code that runs only then'}
 head = f"""## 6. Seeded property-breaking changes and which checks catch them
 
 {n} changes, {2 * len(rounds)} per property in {len(rounds)} rounds, each written by a fresh sub-agent that saw only the property text and a scratch worktree of /repo
@@ -35,8 +36,8 @@ At the final /repo HEAD every one of them is caught by the quick tier of the che
 repair of the repository neutralised (its author's demo passes on the patched tree; kept for the record). {first_missed} of the {n} were MISSED when first
 run ({per_round}) and led to the strengthening named in the last column; asides of sub-agents and several of the new families exposed genuine
 defects of the pinned tree (section 3). Seeds whose patch no longer applied after a repair of the repository were rebased by hand and re-confirmed.
-After every repair all seeds are re-run: that is how the regression on C17-s2 (caught at first, missed after later fixes changed which paths raise,
-caught again after C17 was strengthened) was found.
+After every repair, and after every round of changes to the checks, all seeds are re-run: that is how the regression on C17-s2 (caught at first, missed after later fixes changed which paths raise,
+caught again after C17 was strengthened) was found, and how a change to C13 made in round 10 was found to have cost the detection of C13-s13 (section 5).
 
 """
 open(p, 'w').write(s[:i] + head + table)
